@@ -77,6 +77,9 @@ func parseTree(s string) (*proto.Message, string) {
 			t = proto.BulkMessage
 		}
 		return proto.NewMessageWithType(t).SetBytes(payload), s[j+1:]
+	case 'u': // u(<hex type byte>): a message whose type is none of the five (a handler can build one: MessageType is a public byte type)
+		j := strings.IndexByte(s, ')')
+		return proto.NewMessageWithType(proto.MessageType(unhx(s[2:j])[0])), s[j+1:]
 	case 'N': // an array-typed message whose array was never set (what a handler gets from NewMessageWithType(ArrayMessage))
 		return proto.NewMessageWithType(proto.ArrayMessage), s[1:]
 	case 'a':
@@ -102,6 +105,9 @@ type chunkReader struct {
 	pos    int
 	reads  int
 	zeroOK bool
+	// eofWithData: the Read that hands out the last bytes returns them together with io.EOF (allowed by io.Reader; what
+	// crypto/tls does when the peer's close_notify is already buffered, what iotest.DataErrReader does)
+	eofWithData bool
 }
 
 func (r *chunkReader) Read(p []byte) (int, error) {
@@ -126,6 +132,9 @@ func (r *chunkReader) Read(p []byte) (int, error) {
 		if r.sizes[0] == 0 {
 			r.sizes = r.sizes[1:]
 		}
+	}
+	if r.eofWithData && r.pos >= len(r.data) {
+		return n, io.EOF
 	}
 	return n, nil
 }
@@ -185,6 +194,11 @@ func modeParse(args []string) {
 			limit, _ = strconv.Atoi(f[2])
 		}
 		var sizes []int
+		eofWithData := false
+		if strings.HasPrefix(f[0], "e") { // e<sizes>: as <sizes>, the last bytes arrive together with io.EOF
+			eofWithData = true
+			f[0] = f[0][1:]
+		}
 		if f[0] != "-" {
 			for _, s := range strings.Split(f[0], ",") {
 				v, _ := strconv.Atoi(s)
@@ -212,7 +226,7 @@ func modeParse(args []string) {
 					sb.WriteString("P(" + strings.ReplaceAll(msg, " ", "_") + ")")
 				}
 			}()
-			cr := &chunkReader{data: data, sizes: sizes}
+			cr := &chunkReader{data: data, sizes: sizes, eofWithData: eofWithData}
 			var p *proto.Parser
 			if f[0] == "-" {
 				p = proto.NewParserWithBytes(data)
@@ -289,6 +303,29 @@ func modeEncode(args []string) {
 				bt = treeOf(back)
 			}
 			res = hx(b) + " " + bt + " " + reser
+			// the life of a value after its first serialization: serialized again it gives the same bytes; changed through its public
+			// API (an element appended through the Array handle, the payload of its first element replaced) and serialized again it
+			// gives what a freshly built value gives that was changed the same way BEFORE it was ever serialized
+			if b3, err3 := m.RESPBytes(); err3 != nil || string(b3) != string(b) {
+				res = "MUT second-serialization " + hx(b) + " " + hx(b3)
+			} else if m.IsArray() && !m.IsNil() {
+				mutate := func(x *proto.Message) {
+					if arr, err := x.Array(); err == nil && arr != nil {
+						if first, err := arr.Next(); err == nil && first != nil && !first.IsArray() && !first.IsNil() {
+							first.SetBytes([]byte("changed"))
+						}
+						arr.Append(proto.NewMessageWithType(proto.BulkMessage).SetBytes([]byte("tail")))
+					}
+				}
+				fresh, _ := parseTree(line)
+				mutate(fresh)
+				want, errW := fresh.RESPBytes()
+				mutate(m)
+				got, errG := m.RESPBytes()
+				if errW == nil && (errG != nil || string(got) != string(want)) {
+					res = "MUT changed-after-serialization " + hx(want) + " " + hx(got)
+				}
+			}
 			if prevB != nil && string(prevB) != prevS {
 				res = "ALIAS " + hx([]byte(prevS)) + " " + hx(prevB)
 			}
